@@ -387,6 +387,9 @@ pub struct Device {
     pub model: Model,
     /// markers in labels etc. (C03 runs)
     pub marker_labels: bool,
+    /// folder slot -> (folder id, records of its event log, model of the folder)
+    /// remembered by `fsnap`, restored through the force-merge path by `frevert`
+    pub fsnaps: BTreeMap<u64, (VaultId, Vec<sos_core::events::EventRecord>, FolderM)>,
 }
 
 pub fn diff_snap(expect: &Snap, got: &Snap) -> Option<String> {
@@ -474,6 +477,7 @@ impl Device {
             password,
             model: Model::default(),
             marker_labels: false,
+            fsnaps: BTreeMap::new(),
         };
         d.adopt_model().await?;
         Ok(d)
@@ -496,6 +500,7 @@ impl Device {
             password,
             model: Model::default(),
             marker_labels: false,
+            fsnaps: BTreeMap::new(),
         };
         d.open().await?;
         d.adopt_model().await?;
@@ -624,6 +629,10 @@ impl Device {
         let slot = ju64(s, "slot");
         let val = ju64(s, "val");
         let marker_labels = self.marker_labels;
+        if self.account.is_none() && opn != "restart" {
+            // a failed restart (reported by its own oracle) leaves no account
+            return "skip:closed".into();
+        }
         match opn.as_str() {
             "create" => {
                 let fslot = ju64(s, "folder");
@@ -950,6 +959,68 @@ impl Device {
                 let Some(fid) = self.folder_of_slot(ju64(s, "fslot")) else { return "skip".into() };
                 match self.lock().await.compact_folder(&fid).await {
                     Ok(_) => "ok".into(),
+                    Err(e) => format!("err:{}", short_err(&e.to_string())),
+                }
+            }
+            "fsnap" => {
+                // remember the folder's event log as another replica would hold it
+                let fslot = ju64(s, "fslot");
+                let Some(fid) = self.folder_of_slot(fslot) else { return "skip".into() };
+                let Some(fm) = self.model.folders.get(&fid).cloned() else { return "skip".into() };
+                let recs = {
+                    use sos_core::events::EventLog;
+                    use sos_sync::StorageEventLogs;
+                    let a = self.lock().await;
+                    let Ok(l) = a.folder_log(&fid).await else { return "skip".into() };
+                    let l = l.read().await;
+                    match l.diff_records(None).await {
+                        Ok(r) => r,
+                        Err(e) => return format!("err:{}", short_err(&e.to_string())),
+                    }
+                };
+                self.fsnaps.insert(fslot, (fid, recs, fm));
+                "ok".into()
+            }
+            "frevert" => {
+                // the hard-conflict path: replace the whole folder log with the
+                // remembered one (ForceMerge::force_merge_folder), as a device does
+                // after fetching the server's copy
+                let fslot = ju64(s, "fslot");
+                let Some((fid, recs, fm)) = self.fsnaps.get(&fslot).cloned() else { return "skip".into() };
+                if self.folder_of_slot(fslot) != Some(fid) || recs.is_empty() {
+                    return "skip".into();
+                }
+                use sos_core::commit::CommitTree;
+                use sos_core::events::patch::{Diff, Patch};
+                use sos_sync::{ForceMerge, MergeOutcome};
+                let mut t = CommitTree::new();
+                for r in &recs {
+                    t.insert(r.commit().0);
+                }
+                t.commit();
+                let Ok(checkpoint) = t.head() else { return "skip".into() };
+                let diff = Diff::new(Patch::new(recs.clone()), checkpoint, None);
+                let mut outcome = MergeOutcome::default();
+                let res = self.lock().await.force_merge_folder(&fid, diff, &mut outcome).await;
+                match res {
+                    Ok(()) => {
+                        self.model.folders.insert(fid, fm.clone());
+                        let folders = self.model.folders.clone();
+                        self.model.slots.retain(|_, (f, id)| {
+                            folders.get(f).map(|x| x.secrets.contains_key(id)).unwrap_or(false)
+                        });
+                        // secrets that exist again become addressable
+                        let used: HashSet<SecretId> = self.model.slots.values().map(|x| x.1).collect();
+                        let mut free = (0..16u64).filter(|k| !self.model.slots.contains_key(k)).collect::<Vec<_>>();
+                        for id in fm.secrets.keys() {
+                            if !used.contains(id) {
+                                if let Some(k) = free.pop() {
+                                    self.model.slots.insert(k, (fid, *id));
+                                }
+                            }
+                        }
+                        "ok".into()
+                    }
                     Err(e) => format!("err:{}", short_err(&e.to_string())),
                 }
             }
